@@ -173,6 +173,9 @@ structure MRes where
 
 def ansEq (a b : List (String × Ans)) : Bool := a == b
 
+/-- one-line rendering for diagnostics -/
+def flat {α : Type} [Repr α] (x : α) : String := ((repr x).pretty 1000000).replace "\n" " "
+
 def runHonest (env : Env) (cfg : Cfg) (w : World TState) (op : DOp) (rec : List (String × Ans)) : MRes :=
   let lw : World Logged := { st := w.st, evm := { t := w.evm, log := [] } }
   let fail (e : Rej) : MRes := { ok := false, rej := rejName e, resp := .none, st := w.st, tok := some w.evm, evmBad := false, evmNote := "" }
@@ -182,7 +185,7 @@ def runHonest (env : Env) (cfg : Cfg) (w : World TState) (op : DOp) (rec : List 
      | .ok (w', r) =>
        let bad := !ansEq w'.evm.log rec
        { ok := true, rej := "", resp := r, st := w'.st, tok := some w'.evm.t, evmBad := bad,
-         evmNote := if bad then s!"model-answers={repr w'.evm.log}" else "" }
+         evmNote := if bad then s!"model-answers={flat w'.evm.log}" else "" }
      | .error e => fail e)
   | .tx c h call =>
     (match holderCall cfg w.evm c h call with
@@ -192,7 +195,7 @@ def runHonest (env : Env) (cfg : Cfg) (w : World TState) (op : DOp) (rec : List 
        | .ok (w', r) =>
          let bad := !ansEq w'.evm.log rec
          { ok := true, rej := "", resp := r, st := w'.st, tok := some w'.evm.t, evmBad := bad,
-           evmNote := if bad then s!"model-answers={repr w'.evm.log}" else "" }
+           evmNote := if bad then s!"model-answers={flat w'.evm.log}" else "" }
        | .error e => fail e)
   | .sd c => { ok := true, rej := "", resp := .none, st := w.st, tok := some (selfdestruct w.evm c), evmBad := false, evmNote := "" }
   | .dep c by_ sup =>
@@ -331,10 +334,10 @@ def processLine (acc : Acc) (line : String) : Acc :=
         let l :=
           if comps.isEmpty then s!"{seq} A {tag}"
           else s!"{seq} D {tag} comps={",".intercalate comps} model={if m.ok then "ok" else "rej:" ++ m.rej} impl={implClass} " ++
-               (if comps.contains "resp" then s!"modelResp={repr m.resp} implResp={repr implResp} " else "") ++
+               (if comps.contains "resp" then s!"modelResp={flat m.resp} implResp={flat implResp} " else "") ++
                (if comps.contains "bank" then bankDiff m.st.bank implPost.st.bank ++ " " else "") ++
-               (if comps.contains "reg" then s!"modelReg={repr m.st.reg} implReg={repr implPost.st.reg} " else "") ++
-               (if comps.contains "meta" then s!"modelMeta={repr m.st.dmeta} implMeta={repr implPost.st.dmeta} " else "") ++
+               (if comps.contains "reg" then s!"modelReg={flat m.st.reg} implReg={flat implPost.st.reg} " else "") ++
+               (if comps.contains "meta" then s!"modelMeta={flat m.st.dmeta} implMeta={flat implPost.st.dmeta} " else "") ++
                (if comps.contains "nonce" then s!"modelMn={m.st.mn} implMn={implPost.st.mn} " else "") ++
                (if comps.contains "token" then (match m.tok with | some t => tokDiff t implPost.evm | none => "") ++ " " else "") ++
                (if comps.contains "evm" then m.evmNote else "")
